@@ -104,12 +104,21 @@ impl Powers {
     /// assert_eq!(powers.get(Unit::Second), Some(-1));
     /// ```
     pub fn insert(&mut self, unit: Unit, power: i32) {
+        if power == 0 {
+            return;
+        }
+
         match self.powers.entry(unit) {
             btree_map::Entry::Vacant(e) => {
                 e.insert(power);
             }
             btree_map::Entry::Occupied(mut e) => {
                 *e.get_mut() += power;
+
+                // A base that has cancelled out is not part of the unit.
+                if *e.get() == 0 {
+                    e.remove();
+                }
             }
         }
     }
